@@ -87,6 +87,7 @@ pub fn run(n_programs: usize, len: usize, seed: u64, forms_path: &str, out: &str
     let mut fac = InstructionInfoFactory::new();
     while made < n_programs && tries < n_programs * 5 {
         tries += 1;
+        crate::interp::PROGRESS.fetch_add(1, std::sync::atomic::Ordering::Relaxed); // the watchdog looks for a hang inside ONE program
         let mut items = gen_items(&mut g, &forms, len);
         let (start, bytes, _addrs) = match layout(&mut items, end) {
             Some(x) => x,
